@@ -29,7 +29,10 @@ TraceStep ==
           /\ act' = [e.act EXCEPT !.ok = TRUE]
      ELSE LET eff == Effect(store, mut, e.act)
               obsmut == SetOfSeq(e.post.mut)
-              match == eff.ok = e.ok /\ eff.store = e.post.store /\ eff.mut = obsmut IN
+              \* where the property leaves the outcome open only the frame is checked (other names, mutability)
+              frame == obsmut = mut /\ \A n \in Names : n # e.act.n => e.post.store[n] = store[n]
+              match == IF Unspecified(store, e.act) THEN frame
+                       ELSE eff.ok = e.ok /\ eff.store = e.post.store /\ eff.mut = obsmut IN
           /\ (IF match THEN TRUE ELSE Report(e, eff))
           /\ store' = [n \in Names |-> e.post.store[n]]
           /\ mut' = obsmut
